@@ -101,6 +101,10 @@ var selfMutants = []selfMutant{
 	{Rule: "R-EOF", File: "json/parse.go", Only: "json", Old: "		} else if c == 0 { // EOF\n			return ErrorGrammar, nil", New: "		} else if c == 0 { // EOF\n			return WhitespaceGrammar, nil", Why: "end of input not reported"},
 	{Rule: "R-ERRMOVE", File: "js/lex.go", Only: "js", Old: "			l.err = parse.NewErrorLexer(l.r, \"invalid number\")\n", New: "", Why: "error token after consuming input without recording an error"},
 	{Rule: "R-ERRMOVE", File: "css/lex.go", Only: "css", Old: "	case 0:\n		if l.r.Err() != nil {\n			return ErrorToken, nil\n		}\n", New: "	case 0:\n		return ErrorToken, nil\n", Props: []string{"C01"}, Why: "any NUL byte is taken for the end of input"},
+	// behaviour-preserving rewrites that must stay silent (regression guards for the precision work of DESIGN.md section 13)
+	{Rule: "R-INPUT", File: "input.go", Silent: true, Old: "	if z.err != nil {\n		return z.err\n	} else if len(z.buf)-1 <= z.pos+pos {\n		return io.EOF\n	}\n	return nil\n}", New: "	switch {\n	case z.err != nil:\n		return z.err\n	case z.atEnd(pos):\n		return io.EOF\n	}\n	return nil\n}\n\nfunc (z *Input) atEnd(i int) bool {\n	return len(z.buf)-1 <= z.pos+i\n}", Why: "PeekErr through a predicate helper and a tagless switch (behaviour-preserving)"},
+	{Rule: "R-WALK", File: "js/walk.go", Silent: true, Old: "	case *FuncDecl:\n		Walk(v, &n.Body)\n		Walk(v, &n.Params)\n", New: "	case *FuncDecl:\n		walkFuncParts(v, &n.Body, &n.Params)\n", Why: "function parts walked by a helper that receives their addresses (behaviour-preserving)"},
+	{Rule: "R-JSONKEY", File: "json/parse.go", Silent: true, Old: "func (p *Parser) State() State {\n	return p.state[len(p.state)-1]\n}", New: "func (p *Parser) State() State {\n	return p.top()\n}\n\nfunc (p *Parser) top() State {\n	return p.state[len(p.state)-1]\n}", Why: "State() through an accessor of the top of the stack (behaviour-preserving)"},
 	// look-ahead index idiom (eng_idx.go): scan with Peek(n), move once — correct form must pass, the form that does not stop at NUL must not
 	{Rule: "R-CURSOR", File: "json/parse.go", Only: "json", Silent: true, Old: "	for {\n		if c := p.r.Peek(0); c != ' ' && c != '\\n' && c != '\\r' && c != '\\t' {\n			break\n		}\n		p.r.Move(1)\n	}\n}", New: "	n := 0\n	for c := p.r.Peek(n); c == ' ' || c == '\\n' || c == '\\r' || c == '\\t'; c = p.r.Peek(n) {\n		n++\n	}\n	p.r.Move(n)\n}", Why: "whitespace skipped with a look-ahead index and one Move (behaviour-preserving)"},
 	{Rule: "R-PROGRESS", File: "json/parse.go", Only: "json", Silent: true, Old: "	for {\n		if c := p.r.Peek(0); c != ' ' && c != '\\n' && c != '\\r' && c != '\\t' {\n			break\n		}\n		p.r.Move(1)\n	}\n}", New: "	n := 0\n	for c := p.r.Peek(n); c == ' ' || c == '\\n' || c == '\\r' || c == '\\t'; c = p.r.Peek(n) {\n		n++\n	}\n	p.r.Move(n)\n}", Why: "whitespace skipped with a look-ahead index and one Move (behaviour-preserving) "},
@@ -115,7 +119,8 @@ var selfMutants = []selfMutant{
 
 // extra declarations some mutants need (appended to the mutated file)
 var selfMutantAppend = map[string]string{
-	"constructor captures package-level memory (variable added below)": "\nvar sharedStates = make([]State, 0, 4)\n",
+	"function parts walked by a helper that receives their addresses (behaviour-preserving)": "\nfunc walkFuncParts(v IVisitor, body *BlockStmt, params *Params) {\n	Walk(v, body)\n	Walk(v, params)\n}\n",
+	"constructor captures package-level memory (variable added below)":                       "\nvar sharedStates = make([]State, 0, 4)\n",
 }
 
 // engineOnly restricts the cursor engine to one package while self-tests run.
